@@ -65,7 +65,8 @@ def g_case(hist, out):
     ent = {e["op"]: e for e in (out.get("entries") or [])}
     ops = []
     if hist.get("exec"):
-        ops.append("OPersist %s" % g_entry(ent[-1]))      # genesis, executed by the driver's bootstrap
+        ops.append("OPersist %s" % g_entry(ent[-2]))      # genesis, executed by the driver's bootstrap
+        ops.append("OPersist %s" % g_entry(ent[-1]))      # block 2: seeded appchains / services
     for i, o in enumerate(hist["ops"]):
         if o["op"] == "y":
             ops.append("OReexec %s" % (g_entry(ent[i]) if i in ent else DUMMY_ENTRY))
@@ -235,7 +236,7 @@ def dup_trigger(hist, out):
 
 def nontrivial(hist, out):
     if hist.get("exec"):
-        return sum(1 for o in hist["ops"] if o["op"] in ("x", "y") and o["n"] > 0) >= 2
+        return sum(1 for o in hist["ops"] if o["op"] in ("x", "y") and o.get("n", 0) + o.get("m", 0) > 0) >= 2
     acc_p = sum(1 for o, s in zip(hist["ops"], out["steps"]) if o["op"] == "p" and s["code"] == 0)
     acc_r = any(o["op"] == "r" and s["code"] == 0 and o["t"] < 10 ** 6 for o, s in zip(hist["ops"], out["steps"]))
     rej = any(s["code"] != 0 for s in out["steps"])
@@ -258,46 +259,58 @@ def run_hists(ctx, exe, hists):
     return outs
 
 
+EXEC_HEAD0 = 2      # the bootstrap executes genesis and the seed block
+
+
 def gen_exec(r, nops, redeliver=True):
-    """executor-level: blocks of native transfers (some failing) executed by the real executor,
-    restarts, and RE-DELIVERY of a different block for an already executed height k at every depth
-    below the head (the executor's rollbackBlocks path), followed by further blocks"""
+    """executor-level: blocks of native transfers (some failing) and of IBTP requests that are really
+    delivered (some rejected), EMPTY blocks right after them, restarts, and RE-DELIVERY of a different
+    block for an already executed height k at every depth below the head (the executor's rollbackBlocks
+    path), followed by further blocks"""
     ops = []
-    head = 1                       # genesis
+    head = EXEC_HEAD0
     for _ in range(nops):
         x = r.random()
-        n = r.choice([0, 1, 2, 3, 5, 9])
+        n = r.choice([0, 0, 1, 2, 3, 5])
         bad = r.randrange(0, n + 1) if n and r.random() < 0.4 else 0
-        if redeliver and head >= 2 and x < 0.3:
-            k = r.randrange(2, head + 1)         # any depth: k = head is the common case, k < head the deep one
-            ops.append(dict(op="y", k=k, n=n, bad=bad))
+        m = r.choice([0, 0, 1, 2, 4]) if r.random() < 0.6 else 0
+        mbad = r.randrange(0, m + 1) if m and r.random() < 0.3 else 0
+        blk = dict(n=n, bad=bad, m=m, mbad=mbad)
+        if redeliver and head >= 3 and x < 0.25:
+            k = r.randrange(3, head + 1)         # any depth: k = head is the common case, k < head the deep one
+            ops.append(dict(op="y", k=k, **blk))
             head = k
-        elif x < 0.88 and head < 10:
-            ops.append(dict(op="x", n=n, bad=bad))
+        elif x < 0.85 and head < 11:
+            ops.append(dict(op="x", **blk))
             head += 1
+            if m > mbad and r.random() < 0.6 and head < 11:
+                # empty block(s) directly after delivered interchain transactions
+                for _ in range(r.choice([1, 1, 2])):
+                    ops.append(dict(op="x", n=0, bad=0, m=0, mbad=0))
+                    head += 1
         else:
             ops.append(dict(op="o"))
-    return dict(exec=True, kh=12, ops=ops)
+    return dict(exec=True, kh=14, ops=ops)
 
 
 def exec_redelivery_ladder(depth):
-    """head 2+depth, then a different block for every height from the head down to 2, each followed by
-    blocks up to the old head again: heights 2..h, k, k+1..h for every k (2,3,4,5,3,4,5 and all others)"""
-    ops = [dict(op="x", n=1 + i % 3, bad=0) for i in range(depth + 1)]
-    head = 2 + depth
-    for k in range(head, 1, -1):
-        ops.append(dict(op="y", k=k, n=2, bad=0))
-        ops += [dict(op="x", n=1, bad=0) for _ in range(head - k)]
+    """head 3+depth, then a different block for every height from the head down to 3, each followed by
+    blocks up to the old head again (the sequence 2,3,4,5,3,4,5 and all others)"""
+    ops = [dict(op="x", n=1 + i % 3, bad=0, m=i % 2, mbad=0) for i in range(depth + 1)]
+    head = EXEC_HEAD0 + 1 + depth
+    for k in range(head, 2, -1):
+        ops.append(dict(op="y", k=k, n=2, bad=0, m=1, mbad=0))
+        ops += [dict(op="x", n=0 if j == 0 else 1, bad=0, m=0, mbad=0) for j in range(head - k)]
     return dict(exec=True, kh=head + 2, ops=ops)
 
 
 def exec_valid(hist):
-    head = 1
+    head = EXEC_HEAD0
     for o in hist["ops"]:
         if o["op"] == "x":
             head += 1
         elif o["op"] == "y":
-            if not (2 <= o["k"] <= head):
+            if not (3 <= o["k"] <= head):
                 return False
             head = o["k"]
     return True
@@ -305,7 +318,7 @@ def exec_valid(hist):
 
 def deep_redelivery(hist):
     """a block strictly below the executor head is re-delivered"""
-    head = 1
+    head = EXEC_HEAD0
     for o in hist["ops"]:
         if o["op"] == "x":
             head += 1
@@ -314,6 +327,18 @@ def deep_redelivery(hist):
                 return True
             head = o["k"]
     return False
+
+
+def empty_after_interchain(hist):
+    """an empty block is executed directly after a block with delivered interchain transactions"""
+    prev = False
+    n = 0
+    for o in hist["ops"]:
+        if o["op"] in ("x", "y"):
+            if prev and o.get("n", 0) + o.get("m", 0) == 0:
+                n += 1
+            prev = o.get("m", 0) > o.get("mbad", 0)
+    return n
 
 
 def shrink(ctx, exe, hist, bad):
@@ -441,6 +466,8 @@ def run_inner(ctx):
                     executor_level=sum(1 for h in hists if h.get("exec")),
                     executor_redeliveries=sum(1 for h in hists if h.get("exec") for o in h["ops"] if o["op"] == "y"),
                     executor_deep_redelivery_histories=sum(1 for h in hists if h.get("exec") and deep_redelivery(h)),
+                    executor_interchain_blocks=sum(1 for h in hists if h.get("exec") for o in h["ops"] if o.get("m", 0) > o.get("mbad", 0)),
+                    executor_empty_blocks_after_interchain=sum(empty_after_interchain(h) for h in hists if h.get("exec")),
                     ops=sum(len(h["ops"]) for h in hists))
         kinds = {}
         B = 300
